@@ -47,7 +47,7 @@ func plans() map[string][]streamPlan {
 		"C15": {{"pipe", 15000, 400000}, {"subst", 10000, 300000}},
 		"C16": {{"jsonish", 4000, 100000}, {"expr", 15000, 300000}, {"fn", 10000, 200000}, {"jsoncodec", 3000, 100000}},
 		"C17": {{"bytes", 20000, 500000}, {"syntax-enum", syntaxEnumCount(3), syntaxEnumCount(4)}, {"syntax", 8000, 200000}},
-		"C18": {{"typed", 8000, 300000}},
+		"C18": {{"typed", 8000, 300000}, {"typedmodel", 4000, 150000}},
 		"C19": {{"cli", 1200, 30000}, {"jsoncodec", 4000, 100000}},
 	}
 }
